@@ -15,7 +15,7 @@ COMMON_NOTE = ('Trusted: Lean 4 kernel with axioms propext, Classical.choice, Qu
 TEXT = {
  'C01': ('proof', 'The macro trie is proved to contain exactly the spelled paths of the declarations (paths_iff, lookup_iff, no_shadowing), the run-time '
          'case-insensitive child walk is proved equal to the exact walk of the upper-cased header (child_walk_iff, invokes_iff, same_handler, '
-         'no_match_no_handler), for all declaration lists. Tie to the code: TREE dump of 17 interfaces expanded by the real macro vs the model, MACRO '
+         'no_match_no_handler), for all declaration lists. Tie to the code: TREE dump of every generated interface (26, plus eight fresh ones per thorough run) expanded by the real macro vs the model, MACRO '
          'ops running the real command.rs/tree.rs on thousands of declaration sets, RUN on every spelling and near-miss; oracle = independent python '
          're-statement of the spelling rule.',
          'ASCII declarations; the quote! glue in lib.rs is validated on the generated interfaces, not modelled; -113 on undefined headers is checked by '
